@@ -224,12 +224,20 @@ def fmt_cell(v):
     return str(v)
 
 
-def write_pin(path, table, na_token=""):
-    """na_token: how a missing value is spelled (empty field, or what R / spreadsheets write: NA, N/A, null, NaN ...)."""
+def write_pin(path, table, na_token="", g_format=False):
+    """na_token: how a missing value is spelled (empty field, or what R / spreadsheets write: NA, N/A, null, NaN ...).
+    g_format: whole-number floats are written without a decimal point ("3", as C's %g and many search engines do)."""
+    def cell(v):
+        if v is None:
+            return na_token
+        if g_format and isinstance(v, float) and v == int(v) and abs(v) < 1e15:
+            return str(int(v))
+        return fmt_cell(v)
+
     with open(path, "w", newline="") as fh:
         fh.write("\t".join(table["columns"]) + "\n")
         for r in table["rows"]:
-            fh.write("\t".join(na_token if v is None else fmt_cell(v) for v in r) + "\n")
+            fh.write("\t".join(cell(v) for v in r) + "\n")
 
 
 def with_range_index_metadata(tbl, start):
@@ -279,11 +287,11 @@ def write_parquet(path, table, row_group_size=None, dict_strings=False, index_st
     pq.write_table(tbl, path, **kw)
 
 
-def write_table(path, table, row_group_size=None, dict_strings=False, index_start=0, na_token=""):
+def write_table(path, table, row_group_size=None, dict_strings=False, index_start=0, na_token="", g_format=False):
     if str(path).endswith(".parquet"):
         write_parquet(path, table, row_group_size, dict_strings=dict_strings, index_start=index_start)
     else:
-        write_pin(path, table, na_token=na_token)
+        write_pin(path, table, na_token=na_token, g_format=g_format)
 
 
 # --------------------------------------------------------------------- knobs
@@ -348,7 +356,28 @@ def gen_incidence(rng, n_prot=None, n_pep=None, palindromes=0.0):
             k = rng.randint(1, min(5, n_pep))
             peps = rng.sample(toks, k)
         prots[name] = sorted(set(peps), key=toks.index)
-    return {"proteins": prots, "tokens": toks}
+    # sequence length is not a proxy for the number of peptides: tandem repeats (the peptide set does not grow) and long
+    # stretches without a cleavage site (longer than any admissible peptide)
+    pad = {}
+    for name in names:
+        r = rng.random()
+        if prots[name] and r < 0.2:
+            pad[name] = {"repeat": rng.choice([1, 2])}
+        elif prots[name] and r < 0.35:
+            pad[name] = {"tail": rng.choice([55, 80])}
+    return {"proteins": prots, "tokens": toks, "pad": pad}
+
+
+def protein_seq(struct, name, decoy=False):
+    """The amino-acid sequence of entry `name` (or of its decoy) of an incidence structure."""
+    toks = struct["proteins"][name]
+    seq = "".join(decoy_token(t) for t in toks) if decoy else "".join(toks)
+    pad = (struct.get("pad") or {}).get(name) or {}
+    if pad.get("repeat"):
+        seq = seq * (1 + pad["repeat"])
+    if pad.get("tail"):
+        seq = seq + "G" * pad["tail"] + "K"
+    return seq
 
 
 def decoy_token(tok):
@@ -362,12 +391,10 @@ def render_fasta(struct, order=None, decoy_prefix="decoy_", with_decoys=True, wi
         names = [names[i] for i in order]
     entries = []
     for n in names:
-        seq = "".join(struct["proteins"][n])
-        entries.append((n, seq))
+        entries.append((n, protein_seq(struct, n)))
     if with_decoys:
         for n in names:
-            seq = "".join(decoy_token(t) for t in struct["proteins"][n])
-            entries.append((decoy_prefix + n, seq))
+            entries.append((decoy_prefix + n, protein_seq(struct, n, decoy=True)))
     return entries
 
 
